@@ -8,7 +8,6 @@ import (
 	"encoding/hex"
 	"fmt"
 	"math/big"
-	"sort"
 	"strings"
 	"time"
 
@@ -23,6 +22,7 @@ import (
 	"github.com/ethereum/go-ethereum/common"
 	ethtypes "github.com/ethereum/go-ethereum/core/types"
 	"github.com/ethereum/go-ethereum/crypto"
+	"github.com/evmos/ethermint/crypto/ethsecp256k1"
 	evmtypes "github.com/evmos/ethermint/x/evm/types"
 
 	"github.com/Canto-Network/Canto/v8/x/erc20"
@@ -40,8 +40,14 @@ type e20Suite struct {
 	r      *Rng
 	t      *Trace
 	k      erc20keeper.Keeper
-	evm    *ScriptEVM
+	evm    *ScriptEVM // surface M only
+	tok    tokSide
+	honest bool // no scripted deviation, no forged receipt, no self-destruct, closed-world funding (C03)
+	real   bool // surface E: ethermint's EVM with the compiled contracts
+	keys   []*ethsecp256k1.PrivKey
 	ids    *idTable
+	dump   map[string]string
+	cur    *e20Obs // the observation after the last operation = the pre-state of the next (nothing changes in between)
 	stat   map[string]int
 	gov    string
 	mod    sdk.AccAddress
@@ -73,6 +79,7 @@ func (s *e20Suite) setSeq(ctx sdk.Context, a sdk.AccAddress, seq uint64) {
 
 func (s *e20Suite) newWorld() {
 	r := s.r
+	s.cur = nil
 	s.kaddr = nil
 	s.mod = authtypes.NewModuleAddress(erc20types.ModuleName)
 	modHex := common.BytesToAddress(s.mod)
@@ -89,11 +96,7 @@ func (s *e20Suite) newWorld() {
 			s.hexDen = append(s.hexDen, h)
 		}
 	}
-	s.tokens = nil
-	for i := 0; i < nTokens; i++ {
-		s.tokens = append(s.tokens, tokenAddr(i))
-	}
-	s.coins = []string{"acoin", "bcoin", ibcDenomA, "ccoin", "dcoin", "aCANTOx", "erc20/" + s.tokens[nTokens-1].String()}
+	s.coins = []string{"acoin", "bcoin", ibcDenomA, "ccoin", "dcoin", "aCANTOx"}
 	fund := sdk.NewCoins()
 	big1 := pow10(30)
 	switch s.scale {
@@ -111,7 +114,24 @@ func (s *e20Suite) newWorld() {
 		fund = fund.Add(sdk.NewCoin(d, big1))
 	}
 	fund = fund.Add(sdk.NewCoin("stake", pow10(24)))
-	s.w = NewWorld(6, fund, time.Unix(1_700_000_000, 0))
+	s.tokens = nil
+	if s.real {
+		s.w, s.keys = newEthWorld(r, 6, fund, time.Unix(1_700_000_000, 0))
+		for i := 0; i < nTokens; i++ {
+			s.tokens = append(s.tokens, crypto.CreateAddress(common.BytesToAddress(s.w.Users[i]), 0))
+		}
+	} else {
+		for i := 0; i < nTokens; i++ {
+			s.tokens = append(s.tokens, tokenAddr(i))
+		}
+		xd := "erc20/" + s.tokens[nTokens-1].String()
+		if !s.honest {
+			// the coin name of a (not yet registered) ERC-20, in circulation: cross-registration as a coin
+			fund = fund.Add(sdk.NewCoin(xd, big1))
+		}
+		s.w = NewWorld(6, fund, time.Unix(1_700_000_000, 0))
+	}
+	s.coins = append(s.coins, "erc20/"+s.tokens[nTokens-1].String())
 	w := s.w
 	for n, a := range s.kaddr {
 		w.SetAlias(a.Bytes(), fmt.Sprintf("k%d", n))
@@ -128,25 +148,73 @@ func (s *e20Suite) newWorld() {
 		w.SetAlias(b, fmt.Sprintf("n%d", i))
 	}
 	s.gov = authtypes.NewModuleAddress(govtypes.ModuleName).String()
-	s.evm = &ScriptEVM{key: w.App.GetKey(evmtypes.StoreKey), ak: w.App.AccountKeeper, setSeq: s.setSeq,
-		alias: func(a sdk.AccAddress) string { return w.Alias(a) }, mod: modHex}
-	s.k = erc20keeper.NewKeeper(runtime.NewKVStoreService(w.App.GetKey(erc20types.StoreKey)), w.App.AppCodec(),
-		w.App.GetSubspace(erc20types.ModuleName), w.App.AccountKeeper, w.App.BankKeeper, s.evm, s.gov)
 	s.ids = newIDTable()
 	s.metaV = map[string]int{}
-	// external honest tokens t0..t2 exist from the start; holders get balances
+	aliasF := func(a sdk.AccAddress) string { return w.Alias(a) }
+	if s.real {
+		rec := &recordEVM{inner: w.App.EvmKeeper, alias: aliasF}
+		s.k = erc20keeper.NewKeeper(runtime.NewKVStoreService(w.App.GetKey(erc20types.StoreKey)), w.App.AppCodec(),
+			w.App.GetSubspace(erc20types.ModuleName), w.App.AccountKeeper, w.App.BankKeeper, rec, s.gov)
+		s.tok = newRealSide(s, rec)
+	} else {
+		s.evm = &ScriptEVM{key: w.App.GetKey(evmtypes.StoreKey), ak: w.App.AccountKeeper, setSeq: s.setSeq, alias: aliasF, mod: modHex}
+		s.k = erc20keeper.NewKeeper(runtime.NewKVStoreService(w.App.GetKey(erc20types.StoreKey)), w.App.AppCodec(),
+			w.App.GetSubspace(erc20types.ModuleName), w.App.AccountKeeper, w.App.BankKeeper, s.evm, s.gov)
+		s.tok = &scriptSide{ScriptEVM: s.evm, s: s}
+	}
+	// external honest tokens t0..t3 exist from the start; holders get balances
 	for i := 0; i < 4; i++ {
 		dep := common.BytesToAddress(w.Users[i])
 		sup := big1.BigInt()
-		s.evm.DeployExternal(w.Ctx, s.tokens[i], dep, sup)
+		if err := s.tok.Deploy(w.Ctx, s.tokens[i], dep, sup, false); err != nil {
+			panic(err)
+		}
 		for j := 0; j < 5; j++ {
 			if j != i {
 				share := new(big.Int).Quo(sup, big.NewInt(8))
-				s.evm.HolderCall(w.Ctx, s.tokens[i], dep, "xfer", common.BytesToAddress(w.Users[j]), share)
+				if err := s.tok.HolderTx(w.Ctx, s.tokens[i], dep, "xfer", common.BytesToAddress(w.Users[j]), share); err != nil {
+					panic(err)
+				}
 			}
 		}
 	}
-	_ = r
+}
+
+// tokSide: what the generator needs from the token / EVM side (script on surface M, ethermint on surface E)
+type tokSide interface {
+	Reset(d Dev)
+	Recording() string
+	Fired() bool
+	Bal(ctx sdk.Context, c, h common.Address) *big.Int
+	HasCode(ctx sdk.Context, c common.Address) bool
+	HasBadMeta(ctx sdk.Context, c common.Address) bool
+	DumpTokens(ctx sdk.Context) map[string]string
+	// an Ethereum transaction of a token holder: the token call, then the post-transaction hook on the receipt
+	HolderTx(ctx sdk.Context, c, holder common.Address, call string, to common.Address, amt *big.Int) error
+	// somebody deploys an honest token at c (on surface E: c must be the deployer's next CREATE address)
+	Deploy(ctx sdk.Context, c, deployer common.Address, supply *big.Int, badMeta bool) error
+}
+
+type scriptSide struct {
+	*ScriptEVM
+	s *e20Suite
+}
+
+func (t *scriptSide) HolderTx(ctx sdk.Context, c, holder common.Address, call string, to common.Address, amt *big.Int) error {
+	logs, rev := t.HolderCall(ctx, c, holder, call, to, amt)
+	if rev {
+		return fmt.Errorf("execution reverted")
+	}
+	msg := ethtypes.NewMessage(holder, &c, 0, big.NewInt(0), 100000, big.NewInt(0), big.NewInt(0), big.NewInt(0), nil, nil, false)
+	return t.s.k.Hooks().PostTxProcessing(ctx, msg, &ethtypes.Receipt{Logs: logs})
+}
+
+func (t *scriptSide) Deploy(ctx sdk.Context, c, deployer common.Address, supply *big.Int, bad bool) error {
+	if !t.DeployExternal(ctx, c, deployer, supply) {
+		return fmt.Errorf("contract address collision")
+	}
+	t.SetBadMeta(ctx, c, bad)
+	return nil
 }
 
 func (s *e20Suite) envLine() string {
@@ -252,7 +320,7 @@ func (s *e20Suite) modParts(ctx sdk.Context) map[string]string {
 	out["meta"] = sortedJoin(ms)
 	out["pairs"], out["bya"], out["byd"] = s.regDump(ctx)
 	out["lk"] = s.grpcLookups(ctx)
-	tok := s.evm.DumpTokens(ctx)
+	tok := s.dump
 	var code, minter []string
 	for k := range tok {
 		switch {
@@ -295,7 +363,7 @@ func (s *e20Suite) grpcLookups(ctx sdk.Context) string {
 // token balances / supplies as maps (diffed entry-wise like the bank ledger)
 func (s *e20Suite) tokLedger(ctx sdk.Context) (tb, ts map[string]string) {
 	tb, ts = map[string]string{}, map[string]string{}
-	for k, v := range s.evm.DumpTokens(ctx) {
+	for k, v := range s.dump {
 		switch {
 		case strings.HasPrefix(k, "tb:"):
 			tb[k[3:]] = v
@@ -335,12 +403,33 @@ type e20Obs struct {
 }
 
 func (s *e20Suite) observe() e20Obs {
+	if s.cur != nil {
+		return *s.cur
+	}
+	o := s.observeNow()
+	s.cur = &o
+	return o
+}
+
+func (s *e20Suite) observeNow() e20Obs {
+	s.dump = s.tok.DumpTokens(s.w.Ctx)
 	tb, ts := s.tokLedger(s.w.Ctx)
-	return e20Obs{parts: s.modParts(s.w.Ctx), tb: tb, ts: ts, snap: s.w.Snapshot()}
+	snap := s.w.Snapshot()
+	if s.real {
+		// the EVM creates an auth account for every contract; the model keeps accounts of message senders only
+		for _, a := range s.kaddr {
+			delete(snap.Accts, s.alias(a.Bytes()))
+		}
+		for _, a := range s.tokens {
+			delete(snap.Accts, s.alias(a.Bytes()))
+		}
+	}
+	return e20Obs{parts: s.modParts(s.w.Ctx), tb: tb, ts: ts, snap: snap}
 }
 
 func (s *e20Suite) sync() {
-	o := s.observe()
+	o := s.observeNow()
+	s.cur = &o
 	var xs []string
 	for _, k := range partOrder {
 		xs = append(xs, k+"="+o.parts[k])
@@ -350,7 +439,8 @@ func (s *e20Suite) sync() {
 
 func (s *e20Suite) emit(kind, args string, dev Dev, out Outcome, resp string, pre e20Obs) {
 	s.t.seq++
-	post := s.observe()
+	post := s.observeNow()
+	s.cur = &post
 	var xs []string
 	for _, k := range partOrder {
 		if pre.parts[k] != post.parts[k] {
@@ -364,13 +454,17 @@ func (s *e20Suite) emit(kind, args string, dev Dev, out Outcome, resp string, pr
 		xs = append(xs, "ts="+d)
 	}
 	devs := "-"
-	if dev.At > 0 && !s.evm.Fired() {
+	if dev.At > 0 && !s.tok.Fired() {
 		dev = Dev{}
 	}
 	if dev.At > 0 {
 		devs = fmt.Sprintf("%d:%s", dev.At, dev.Kind)
 	}
-	line := fmt.Sprintf("O %d %s %s dev=%s evm=%s => %s %s | %s %s", s.t.seq, kind, args, devs, s.evm.Recording(), out.String(), resp, strings.Join(xs, " "), Delta(pre.snap, post.snap))
+	rec := s.tok.Recording()
+	if s.real && kind == "tx" {
+		rec = "?" // the hook inside a real EthereumTx runs on the application's own keeper: its EVM calls are not recorded
+	}
+	line := fmt.Sprintf("O %d %s %s dev=%s evm=%s => %s %s | %s %s", s.t.seq, kind, args, devs, rec, out.String(), resp, strings.Join(xs, " "), Delta(pre.snap, post.snap))
 	s.t.Line(line)
 	s.stat[kind+":"+out.String()]++
 	if dev.At > 0 {
@@ -391,6 +485,13 @@ func (s *e20Suite) amountUpTo(bal sdkmath.Int) sdkmath.Int {
 	r := s.r
 	if !bal.IsPositive() {
 		return sdkmath.NewInt(int64(1 + r.Intn(5)))
+	}
+	if bal.BigInt().BitLen() >= 255 {
+		// next to the 256-bit limit of sdkmath.Int: no room for the "one more than the balance" variants
+		if r.Intn(3) == 0 {
+			return bal
+		}
+		return r.Big(250).AddRaw(1)
 	}
 	switch r.Intn(40) {
 	case 0, 1:
@@ -427,7 +528,7 @@ var (
 
 func (s *e20Suite) pickDev(kind string, num, den int) Dev {
 	r := s.r
-	if !r.Chance(num, den) {
+	if !r.Chance(num, den) || s.honest {
 		return Dev{}
 	}
 	pick := func(ks []string) string { return ks[r.Intn(len(ks))] }
@@ -602,7 +703,7 @@ func (s *e20Suite) doCC(denom string, amt sdkmath.Int, recvStr, recvTok, senderS
 		da = s.alias(common.HexToAddress(denom).Bytes())
 	}
 	msg := &erc20types.MsgConvertCoin{Coin: sdk.Coin{Denom: denom, Amount: amt}, Receiver: recvStr, Sender: senderStr}
-	s.evm.Reset(dev)
+	s.tok.Reset(dev)
 	pre := s.observe()
 	resp := ""
 	out := s.w.Deliver(func(ctx sdk.Context) error {
@@ -630,7 +731,7 @@ func (s *e20Suite) opConvertERC20() {
 	if p, ok := s.pickPair(0); ok && r.Intn(12) != 0 {
 		contract = p.GetERC20Contract()
 		for i := 0; i < 4; i++ {
-			bal = s.evm.Bal(s.w.Ctx, contract, common.BytesToAddress(sender))
+			bal = s.tok.Bal(s.w.Ctx, contract, common.BytesToAddress(sender))
 			if bal.Sign() > 0 {
 				break
 			}
@@ -662,10 +763,10 @@ func (s *e20Suite) opConvertERC20() {
 	if dev.At > 0 && r.Intn(4) != 0 {
 		if p, ok := s.pickEnabled(); ok {
 			c := p.GetERC20Contract()
-			for i := 0; i < 6 && s.evm.Bal(s.w.Ctx, c, common.BytesToAddress(sender)).Sign() == 0; i++ {
+			for i := 0; i < 6 && s.tok.Bal(s.w.Ctx, c, common.BytesToAddress(sender)).Sign() == 0; i++ {
 				sender = s.user()
 			}
-			if b := s.evm.Bal(s.w.Ctx, c, common.BytesToAddress(sender)); b.Sign() > 0 {
+			if b := s.tok.Bal(s.w.Ctx, c, common.BytesToAddress(sender)); b.Sign() > 0 {
 				amt = r.Big(250).Mod(sdkmath.NewIntFromBigInt(b)).AddRaw(1)
 				cStr, cTok = s.hexOf(c.Bytes())
 				recvStr, recvTok = s.bechOf(sender)
@@ -678,7 +779,7 @@ func (s *e20Suite) opConvertERC20() {
 
 func (s *e20Suite) doCE(cStr, cTok string, amt sdkmath.Int, recvStr, recvTok, senderStr, senderTok string, dev Dev) {
 	msg := &erc20types.MsgConvertERC20{ContractAddress: cStr, Amount: amt, Receiver: recvStr, Sender: senderStr}
-	s.evm.Reset(dev)
+	s.tok.Reset(dev)
 	pre := s.observe()
 	resp := ""
 	out := s.w.Deliver(func(ctx sdk.Context) error {
@@ -742,7 +843,7 @@ func (s *e20Suite) opRegisterCoin(force bool) {
 		case 2, 3:
 			base = s.hexDen[r.Intn(len(s.hexDen))]
 		case 4:
-			base = s.coins[len(s.coins)-1] // erc20/<last token>: cross-registration of an ERC-20's coin representation as a coin
+			base = s.coins[len(s.coins)-1] // erc20/<last token> (in circulation only in the non-honest suite): cross-registration of an ERC-20's coin representation as a coin
 		default:
 			base = s.coins[r.Intn(nRegCoins)]
 		}
@@ -760,7 +861,7 @@ func (s *e20Suite) opRegisterCoin(force bool) {
 	if !force {
 		dev = s.pickDev("rc", 1, 6)
 	}
-	s.evm.Reset(dev)
+	s.tok.Reset(dev)
 	pre := s.observe()
 	out := s.w.Deliver(func(ctx sdk.Context) error {
 		_, err := s.k.RegisterCoinProposal(ctx, &erc20types.MsgRegisterCoin{Authority: authStr, Title: "t", Description: "d", Metadata: md})
@@ -777,7 +878,7 @@ func (s *e20Suite) opRegisterERC20(force bool) {
 	}
 	var free []common.Address
 	for _, t := range s.tokens {
-		if !reg[t] && s.evm.HasCode(s.w.Ctx, t) {
+		if !reg[t] && s.tok.HasCode(s.w.Ctx, t) {
 			free = append(free, t)
 		}
 	}
@@ -796,7 +897,7 @@ func (s *e20Suite) opRegisterERC20(force bool) {
 		}
 	}
 	mo := "1"
-	if s.evm.HasBadMeta(s.w.Ctx, c) {
+	if s.tok.HasBadMeta(s.w.Ctx, c) {
 		mo = "0"
 	}
 	authStr, authTok := s.authority()
@@ -807,7 +908,7 @@ func (s *e20Suite) opRegisterERC20(force bool) {
 	if !force {
 		dev = s.pickDev("re", 1, 6)
 	}
-	s.evm.Reset(dev)
+	s.tok.Reset(dev)
 	pre := s.observe()
 	cs := c.Hex()
 	if r.Intn(4) == 0 {
@@ -862,7 +963,7 @@ func (s *e20Suite) doToggle(tok, authStr, authTok string) {
 	if common.IsHexAddress(tok) {
 		ta = s.alias(common.HexToAddress(tok).Bytes())
 	}
-	s.evm.Reset(Dev{})
+	s.tok.Reset(Dev{})
 	pre := s.observe()
 	out := s.w.Deliver(func(ctx sdk.Context) error {
 		_, err := s.k.ToggleTokenConversionProposal(ctx, &erc20types.MsgToggleTokenConversion{Authority: authStr, Title: "t", Description: "d", Token: tok})
@@ -884,7 +985,7 @@ func (s *e20Suite) opParams() {
 }
 
 func (s *e20Suite) doParams(p erc20types.Params, authStr, authTok string) {
-	s.evm.Reset(Dev{})
+	s.tok.Reset(Dev{})
 	pre := s.observe()
 	out := s.w.Deliver(func(ctx sdk.Context) error {
 		_, err := s.k.UpdateParams(ctx, &erc20types.MsgUpdateParams{Authority: authStr, Params: p})
@@ -938,7 +1039,7 @@ func (s *e20Suite) opHook() {
 		if r.Intn(8) == 0 {
 			to = s.user()
 		}
-		modBal := s.evm.Bal(s.w.Ctx, emitter, common.BytesToAddress(s.mod))
+		modBal := s.tok.Bal(s.w.Ctx, emitter, common.BytesToAddress(s.mod))
 		amt := s.amountUpTo(sdkmath.NewIntFromBigInt(modBal))
 		if amt.IsNegative() {
 			amt = sdkmath.ZeroInt()
@@ -969,7 +1070,7 @@ func (s *e20Suite) opHook() {
 		lt = append(lt, logTok(s, l))
 	}
 	dev := s.pickDev("hook", 1, 5)
-	s.evm.Reset(dev)
+	s.tok.Reset(dev)
 	pre := s.observe()
 	out := s.w.Deliver(func(ctx sdk.Context) error {
 		msg := ethtypes.NewMessage(common.BytesToAddress(s.user()), &logs[0].Address, 0, big.NewInt(0), 100000, big.NewInt(0), big.NewInt(0), big.NewInt(0), nil, nil, false)
@@ -989,10 +1090,10 @@ func (s *e20Suite) opTx() {
 		c = s.tokens[r.Intn(nTokens)]
 	}
 	holder := s.user()
-	for i := 0; i < 4 && s.evm.Bal(s.w.Ctx, c, common.BytesToAddress(holder)).Sign() == 0; i++ {
+	for i := 0; i < 4 && s.tok.Bal(s.w.Ctx, c, common.BytesToAddress(holder)).Sign() == 0; i++ {
 		holder = s.user()
 	}
-	bal := s.evm.Bal(s.w.Ctx, c, common.BytesToAddress(holder))
+	bal := s.tok.Bal(s.w.Ctx, c, common.BytesToAddress(holder))
 	amt := s.amountUpTo(sdkmath.NewIntFromBigInt(bal))
 	if amt.IsNegative() {
 		amt = sdkmath.ZeroInt()
@@ -1012,19 +1113,10 @@ func (s *e20Suite) opTx() {
 }
 
 func (s *e20Suite) doTx(c common.Address, holder sdk.AccAddress, call string, to []byte, amt sdkmath.Int, dev Dev) {
-	s.evm.Reset(dev)
+	s.tok.Reset(dev)
 	pre := s.observe()
-	var lt []string
 	out := s.w.Deliver(func(ctx sdk.Context) error {
-		logs, rev := s.evm.HolderCall(ctx, c, common.BytesToAddress(holder), call, common.BytesToAddress(to), amt.BigInt())
-		if rev {
-			return fmt.Errorf("execution reverted")
-		}
-		for _, l := range logs {
-			lt = append(lt, logTok(s, l))
-		}
-		msg := ethtypes.NewMessage(common.BytesToAddress(holder), &c, 0, big.NewInt(0), 100000, big.NewInt(0), big.NewInt(0), big.NewInt(0), nil, nil, false)
-		return s.k.Hooks().PostTxProcessing(ctx, msg, &ethtypes.Receipt{Logs: logs})
+		return s.tok.HolderTx(ctx, c, common.BytesToAddress(holder), call, common.BytesToAddress(to), amt.BigInt())
 	})
 	s.emit("tx", fmt.Sprintf("c=%s holder=%s call=%s to=%s amt=%s", s.alias(c.Bytes()), s.alias(holder), call, s.alias(to), amt), dev, out, "", pre)
 }
@@ -1044,7 +1136,7 @@ func (s *e20Suite) opSend() {
 	if !amt.IsPositive() {
 		amt = sdkmath.OneInt()
 	}
-	s.evm.Reset(Dev{})
+	s.tok.Reset(Dev{})
 	pre := s.observe()
 	out := s.w.Deliver(func(ctx sdk.Context) error {
 		return s.w.App.BankKeeper.SendCoins(ctx, src, dst, sdk.NewCoins(sdk.NewCoin(d, amt)))
@@ -1054,7 +1146,7 @@ func (s *e20Suite) opSend() {
 
 func (s *e20Suite) opSendEnabled() {
 	r := s.r
-	s.evm.Reset(Dev{})
+	s.tok.Reset(Dev{})
 	pre := s.observe()
 	if r.Intn(4) == 0 {
 		v := r.Intn(3) != 0
@@ -1075,7 +1167,7 @@ func (s *e20Suite) opSendEnabled() {
 }
 
 func (s *e20Suite) doSSE(d string, v bool) {
-	s.evm.Reset(Dev{})
+	s.tok.Reset(Dev{})
 	pre := s.observe()
 	out := s.w.Deliver(func(ctx sdk.Context) error {
 		s.w.App.BankKeeper.SetSendEnabled(ctx, d, v)
@@ -1115,7 +1207,7 @@ func (s *e20Suite) opRoundtrip() {
 		s.doCC(p.Denom, amt, vh, vht, ub, ubt, Dev{})
 		s.doCE(cStr, cTok, amt, ub, ubt, vh, vht, Dev{})
 	} else {
-		bal := s.evm.Bal(s.w.Ctx, c, common.BytesToAddress(u))
+		bal := s.tok.Bal(s.w.Ctx, c, common.BytesToAddress(u))
 		if bal.Sign() <= 0 {
 			return
 		}
@@ -1194,7 +1286,7 @@ func (s *e20Suite) opSelfdestruct() {
 		return
 	}
 	c := p.GetERC20Contract()
-	s.evm.Reset(Dev{})
+	s.tok.Reset(Dev{})
 	pre := s.observe()
 	out := s.w.Deliver(func(ctx sdk.Context) error {
 		s.evm.SetCode(ctx, c, false)
@@ -1207,7 +1299,7 @@ func (s *e20Suite) opSelfdestruct() {
 func (s *e20Suite) opDeploy() {
 	r := s.r
 	c := s.tokens[r.Intn(nTokens)]
-	for i := 0; i < 6 && s.evm.HasCode(s.w.Ctx, c) && r.Intn(8) != 0; i++ {
+	for i := 0; i < 6 && s.tok.HasCode(s.w.Ctx, c) && r.Intn(8) != 0; i++ {
 		c = s.tokens[r.Intn(nTokens)]
 	}
 	dep := s.user()
@@ -1216,21 +1308,25 @@ func (s *e20Suite) opDeploy() {
 		sup = sdkmath.NewInt(1000)
 	}
 	bad := r.Intn(4) == 0
-	s.evm.Reset(Dev{})
+	if s.real {
+		// on the real EVM a token address is CREATE(user_i, 0): only its own deployer can deploy it, once
+		for i, t := range s.tokens {
+			if t == c {
+				dep = s.w.Users[i]
+			}
+		}
+	}
+	s.tok.Reset(Dev{})
 	pre := s.observe()
 	out := s.w.Deliver(func(ctx sdk.Context) error {
-		if !s.evm.DeployExternal(ctx, c, common.BytesToAddress(dep), sup.BigInt()) {
-			return fmt.Errorf("contract address collision")
-		}
-		s.evm.SetBadMeta(ctx, c, bad)
-		return nil
+		return s.tok.Deploy(ctx, c, common.BytesToAddress(dep), sup.BigInt(), bad)
 	})
 	s.emit("dep", fmt.Sprintf("c=%s by=%s sup=%s", s.alias(c.Bytes()), s.alias(dep), sup), Dev{}, out, "", pre)
 }
 
 // opReimport: ExportGenesis, empty the three prefixes, InitGenesis with what was exported
 func (s *e20Suite) opReimport() {
-	s.evm.Reset(Dev{})
+	s.tok.Reset(Dev{})
 	pre := s.observe()
 	out := s.w.Deliver(func(ctx sdk.Context) error {
 		gs := erc20.ExportGenesis(ctx, s.k)
@@ -1253,17 +1349,30 @@ func (s *e20Suite) opReimport() {
 	s.emit("reimp", "", Dev{}, out, "", pre)
 }
 
-func init() { suites["erc20"] = runErc20 }
+func init() {
+	suites["erc20"] = func(seed uint64, n int, out string) map[string]int { return runErc20(seed, n, out, false, 0) }
+	// honest worlds only (C03): world 0 on the script EVM without deviations, then worlds on the real EVM
+	suites["erc20e"] = func(seed uint64, n int, out string) map[string]int { return runErc20(seed, n, out, true, 1) }
+	suites["erc20h"] = func(seed uint64, n int, out string) map[string]int { return runErc20(seed, n, out, true, 0) }
+}
 
-func runErc20(seed uint64, nOps int, outPath string) map[string]int {
-	s := &e20Suite{r: &Rng{s: seed*0x9e3779b97f4a7c15 + 20}, stat: map[string]int{}}
+// realFrom: the index of the first world that runs on the real EVM (0: none)
+func runErc20(seed uint64, nOps int, outPath string, honest bool, realFrom int) map[string]int {
+	s := &e20Suite{r: &Rng{s: seed*0x9e3779b97f4a7c15 + 20}, stat: map[string]int{}, honest: honest}
 	s.t = NewTrace(outPath)
 	defer s.t.Close()
 	done := 0
 	count := func(before int) { done += s.t.seq - before }
 	first := true
+	world := 0
 	for done < nOps {
 		s.scale = s.r.Intn(4)
+		s.real = realFrom > 0 && world >= realFrom
+		perWorld := 400
+		if honest && !s.real {
+			perWorld = nOps / 2
+		}
+		world++
 		s.newWorld()
 		s.t.Line(s.envLine())
 		s.sync()
@@ -1277,14 +1386,14 @@ func runErc20(seed uint64, nOps int, outPath string) map[string]int {
 			}
 			count(b)
 		}
-		if first {
+		if first && !honest {
 			first = false
 			b := s.t.seq
 			s.sweep()
 			done += s.t.seq - b
 			s.sync()
 		}
-		for i := 0; i < 400 && done < nOps; i++ {
+		for i := 0; i < perWorld && done < nOps; i++ {
 			b := s.t.seq
 			switch k := s.r.Intn(100); {
 			case k < 22:
@@ -1302,7 +1411,11 @@ func runErc20(seed uint64, nOps int, outPath string) map[string]int {
 			case k < 72:
 				s.opParams()
 			case k < 80:
-				s.opHook()
+				if honest {
+					s.opTx()
+				} else {
+					s.opHook()
+				}
 			case k < 89:
 				s.opTx()
 			case k < 92:
@@ -1310,7 +1423,11 @@ func runErc20(seed uint64, nOps int, outPath string) map[string]int {
 			case k < 95:
 				s.opSendEnabled()
 			case k < 96:
-				s.opSelfdestruct()
+				if honest {
+					s.opTx()
+				} else {
+					s.opSelfdestruct()
+				}
 			case k < 98:
 				s.opDeploy()
 			default:
@@ -1322,10 +1439,5 @@ func runErc20(seed uint64, nOps int, outPath string) map[string]int {
 			}
 		}
 	}
-	var ks []string
-	for k := range s.stat {
-		ks = append(ks, k)
-	}
-	sort.Strings(ks)
 	return s.stat
 }
